@@ -1,8 +1,91 @@
 import SLModel.Drv.Util
+import SLModel.Core.Wal
+import SLModel.Core.Crc32
 open Lean
 namespace SL.Drv.C02
+open SL.Drv SL.Wal
 
-/-- stub: no model operations for C02 yet -/
-def handle (_req : Json) : Except String Json := .error "C02: not implemented"
+def crc : Bytes → Bytes := SL.Crc32.crcLE
+
+def bytesOfHex (s : String) : Except String Bytes := do
+  let b ← hexToBytes s
+  return b.map (·.toNat)
+
+def hexOf (b : Bytes) : String := bytesToHex (b.map (·.toUInt8))
+
+def recOfJson (j : Json) : Except String Rec := do
+  let ty ← getNat j "ty"
+  let p ← bytesOfHex (← getStr j "payload")
+  return ⟨ty, p⟩
+
+def recToJson (r : Rec) : Json := Json.mkObj [("ty", r.ty), ("payload", hexOf r.payload)]
+
+def fopOfJson (j : Json) : Except String FOp := do
+  match getOpt j "write" with
+  | some w => return .write (← bytesOfHex (← w.getStr?))
+  | none => return .setLen (← getNat j "set_len")
+
+/-- payload of an AddDoc record is the serde JSON of `Document`: `{"fields":{…}}`; the queue
+entry carries the document id (`fields.<id_field>`, a string) -/
+def parseDocId (idField : String) (payload : Bytes) : Option String :=
+  match String.fromUTF8? (ByteArray.mk (payload.map (·.toUInt8)).toArray) with
+  | none => none
+  | some s =>
+    match Json.parse s with
+    | .error _ => none
+    | .ok j =>
+      match j.getObjVal? "fields" with
+      | .error _ => none
+      | .ok f =>
+        match f.getObjVal? idField with
+        | .ok (.str id) => some id
+        | _ => some ""      -- parses as a Document; the id is checked later by the writer
+
+def parseId (payload : Bytes) : Option String :=
+  String.fromUTF8? (ByteArray.mk (payload.map (·.toUInt8)).toArray)
+
+def wopToJson : WOp String String → Json
+  | .add id => Json.mkObj [("op", "add"), ("id", id)]
+  | .commit => Json.mkObj [("op", "commit")]
+  | .delete id => Json.mkObj [("op", "delete"), ("id", id)]
+
+def logOfJson (req : Json) : Except String Log := do
+  let d ← bytesOfHex (← getStr req "durable")
+  let ps ← (getArrD req "pending").toList.mapM fopOfJson
+  return ⟨d, ps⟩
+
+def handle (req : Json) : Except String Json := do
+  let op ← getStr req "op"
+  match op with
+  | "frame" =>
+    let rs ← (← getArr req "recs").toList.mapM recOfJson
+    return Json.mkObj [("bytes", hexOf (frameAll crc rs))]
+  | "replay" =>
+    let data ← bytesOfHex (← getStr req "data")
+    let idField := getStrD req "id_field" "_id"
+    let (rs, valid) := replay crc data
+    let es := entries (parseDocId idField) parseId rs
+    return Json.mkObj [("recs", Json.arr (rs.map recToJson).toArray), ("valid", valid),
+      ("entries", Json.arr (es.map wopToJson).toArray),
+      ("pending", Json.arr ((pendingOps es).map wopToJson).toArray)]
+  | "crc" =>
+    let data ← bytesOfHex (← getStr req "data")
+    return Json.mkObj [("crc", SL.Crc32.crc32 data)]
+  | "content" =>
+    let l ← logOfJson req
+    return Json.mkObj [("content", hexOf l.content)]
+  | "crash" =>
+    -- the crash content for choice (j, k): first j pending ops applied, then k bytes of the next write
+    let l ← logOfJson req
+    let j ← getNat req "j"
+    let base := (l.pending.take j).foldl applyF l.durable
+    let c := match getOpt req "k", l.pending[j]? with
+      | some kj, some (.write bs) => base ++ bs.take (kj.getNat?.toOption.getD 0)
+      | _, _ => base
+    let member := (crashContents l).contains c
+    let re := (Log.crashTo c).reopen crc (getBoolD req "truncate_on_open" true)
+    return Json.mkObj [("content", hexOf c), ("is_crash_content", member), ("reopened", hexOf re.content),
+      ("n_contents", (crashContents l).length)]
+  | _ => throw s!"C02: unknown op {op}"
 
 end SL.Drv.C02
